@@ -14,7 +14,7 @@
    weights vector, every table and, where floats matter, every rounding function with the IEEE-754
    laws [ieee_laws] (monotone; 0, 1, 2^63, 2^-63 exact). [nz s]: no 63-bit draw of the stream is 0
    (FlipWeightedCoin(1.0) is false on a zero draw, probability 2^-63 each). *)
-From UV Require Import Base.Common Model.Prng Proofs.PrngP Model.Randomized Proofs.RandomizedP Proofs.RandomizedW Proofs.RandomizedS Proofs.RandomizedC Proofs.RandomizedT.
+From UV Require Import Base.Common Model.Prng Proofs.PrngP Model.Randomized Proofs.RandomizedP Proofs.RandomizedW Proofs.RandomizedS Proofs.RandomizedC Proofs.RandomizedT Model.RandomizedId.
 From Coq Require Import QArith Permutation Sorted.
 Open Scope N_scope.
 
@@ -22,6 +22,20 @@ Theorem C09_deterministic : forall rnd fuel tb v w sn np s salted p q,
   generate rnd fuel tb v w sn np s salted = p -> generate rnd fuel tb v w sn np s salted = q -> p = q.
 Proof. exact generate_deterministic. Qed.
 Print Assumptions C09_deterministic.
+
+(* Reproducibility is about a SEQUENCE of builds on one ClientHelloID: generateRandomizedSpec gets *ClientHelloID, and
+   every copy of an id value shares its Seed pointer (a Roller, or a caller reusing an id for a second connection).
+   In the model a build returns the id it was given ([Model.RandomizedId.build]; [generate] has no seed in its result
+   type), so the second build sees the same inputs and returns the same spec. That the CODE leaves the caller's seed
+   bytes alone is a correspondence observable (CGen: seed bytes after two builds from one *PRNGSeed = [id_seed] of
+   the id the model hands back) and a Go-side oracle (seed, weights, id fields unchanged after every build, through
+   the hook and through UClient+BuildHandshakeState with one shared Seed pointer). *)
+Theorem C09_build_twice : forall rnd fuel tb id sn np s salted,
+  let '(r1, id1) := build rnd fuel tb id sn np s salted in
+  let '(r2, id2) := build rnd fuel tb id1 sn np s salted in
+  r1 = r2 /\ id1 = id /\ id2 = id.
+Proof. exact build_twice. Qed.
+Print Assumptions C09_build_twice.
 
 (* suites: a TLS 1.3 block (only in TLS 1.3 specs), then suites flagged suiteTLS12, then older ones *)
 Theorem C09_suite_order : forall rnd fuel tb v w sn np s salted p,
